@@ -18,6 +18,7 @@ type Obligation struct {
 	Reveal  map[string]bool
 	Lemmas  []string
 	Canary  bool // must NOT be provable (vacuity check)
+	Probe   bool // canary whose goal is the negation of a discharged obligation
 	Timeout int  // seconds; 0 = default
 	Pos     string
 	Static  *bool // decided without solver (type facts etc.)
